@@ -7,6 +7,12 @@ import (
 
 // ApplyFilter applies a filter to a value
 func (ctx *RenderContext) ApplyFilter(name string, value interface{}, args ...interface{}) (interface{}, error) {
+	// Every filter application passes through here, so this is where the sandbox policy is enforced
+	if ctx.sandboxed && ctx.env != nil && ctx.env.securityPolicy != nil &&
+		!ctx.env.securityPolicy.IsFilterAllowed(name) {
+		return nil, NewFilterViolation(name)
+	}
+
 	// Look for the filter in the environment
 	if ctx.env != nil {
 		if filter, ok := ctx.env.filters[name]; ok {
